@@ -25,6 +25,50 @@ def ufun(name, *sorts):
     return z3.Function(name, *sorts)
 
 
+# ---- A-seqsets: the element set of a sequence and pairwise distinctness, as uninterpreted functions whose defining
+# facts are added as instances where a list is built or taken apart (append, remove, iteration).  Each instance is a
+# theorem about finite sequences (by induction on the length); the solver is never asked to find them itself.
+
+def seq_elems(t):
+    """element set of sequence term t: Array(elem -> Bool)"""
+    es = t.sort().basis()
+    return z3.Function('py_elems_' + sort_tag(t.sort()), t.sort(), z3.ArraySort(es, z3.BoolSort()))(t)
+
+
+def seq_distinct(t):
+    return z3.Function('py_distinct_' + sort_tag(t.sort()), t.sort(), z3.BoolSort())(t)
+
+
+def seqset_empty_facts(ctx, sort):
+    e = z3.Empty(sort)
+    key = ('seqset-empty', sort.sexpr())
+    if key in ctx.axiom_tags:
+        return
+    ctx.axiom_tags.add(key)
+    ctx.assume(seq_elems(e) == z3.K(sort.basis(), z3.BoolVal(False)), heavy=True)
+    ctx.assume(seq_distinct(e), heavy=True)
+
+
+def seqset_append_facts(ctx, old, x, new):
+    """new = old ++ [x]"""
+    seqset_empty_facts(ctx, old.sort())
+    ctx.assume(seq_elems(new) == z3.Store(seq_elems(old), x, z3.BoolVal(True)), heavy=True)
+    ctx.assume(seq_distinct(new) == z3.And(seq_distinct(old), z3.Not(z3.Select(seq_elems(old), x))), heavy=True)
+
+
+def seqset_remove_facts(ctx, old, x, new):
+    """new = old with the first occurrence of x (present) removed"""
+    seqset_empty_facts(ctx, old.sort())
+    ctx.assume(seq_elems(old) == z3.Store(seq_elems(new), x, z3.BoolVal(True)), heavy=True)
+    ctx.assume(z3.Implies(seq_distinct(old), z3.And(seq_distinct(new), z3.Not(z3.Select(seq_elems(new), x)))), heavy=True)
+
+
+def seqset_member_facts(ctx, seq, x):
+    """membership test x in seq"""
+    seqset_empty_facts(ctx, seq.sort())
+    ctx.assume(z3.Contains(seq, z3.Unit(x)) == z3.Select(seq_elems(seq), x), heavy=True)
+
+
 def is_concrete(t):
     t = simp(t)
     return z3.is_int_value(t) or z3.is_string_value(t) or z3.is_true(t) or z3.is_false(t)
@@ -249,7 +293,9 @@ class Lib:
             it.set_content(cell, VTuple(c.items + [x]))
             return
         if isinstance(c, VSeq):
-            t = z3.Concat(c.t, z3.Unit(c.ety.encode(it.ctx.force(x) if not isinstance(c.ety, Opt) else x)))
+            xt = c.ety.encode(it.ctx.force(x) if not isinstance(c.ety, Opt) else x)
+            t = z3.Concat(c.t, z3.Unit(xt))
+            seqset_append_facts(it.ctx, c.t, xt, t)
             it.set_content(cell, VSeq(t, c.ety, c.kind))
             return
         raise Unsupported('append to %r' % (c,))
@@ -736,6 +782,8 @@ class Lib:
         if isinstance(c, VMap):
             k = it.ctx.force(idx)
             self._type_map(c, k, v)
+            if isinstance(v, VCell):
+                v.frozen = True
             try:
                 kt = c.kty.encode(k)
                 vt = c.vty.encode(v if isinstance(c.vty, (Opt, _AnyT)) else it.ctx.force(v))
